@@ -411,8 +411,8 @@ def gen_args_case(rng: random.Random) -> Dict[str, Any]:
                           ["a", "a", "b", "b", "c", "d", "f1", "f2", "g1", "k"])
         feats.append({"name": name, "opt": rng.randrange(n_opt),
                       "dtype": ("INT64" if rng.random() < 0.7 else "INT32") if rng.random() < 0.2 else None,
-                      "link": rng.choice([0, 0, 1, 2]) if rng.random() < 0.25 else None})
-    links_set = rng.choice([None, [], [0], [0], [1], [0, 1], [0, 2]])
+                      "link": rng.choice([0, 0, 0, 0, 1, 2]) if rng.random() < 0.25 else None})
+    links_set = rng.choice([[0, 1], [0, 2]]) if rng.random() < 0.06 else rng.choice([None, [], [], [0], [0], [0], [1]])
     filters = []
     for _ in range(rng.choice([0, 1, 1, 1, 2])):
         filters.append({"name": rng.choice(["b", "b", "a", "d"]), "type": rng.choice(["min", "max"]),
@@ -638,7 +638,8 @@ def run_args_case(case: Dict[str, Any]) -> Dict[str, Any]:
         fpool = Pool(case, uni)
         fgot = do_call(uni, fpool, call)
         fworld = model_world(uni, fpool, Renamer())
-        c: Dict[str, Any] = {"call": call, "world": world, "err": got["err"], "plan": got["plan"], "run": got["run"]}
+        c: Dict[str, Any] = {"call": call, "world": world, "err": got["err"], "plan": got["plan"], "run": got["run"],
+                             "mutated": sorted({p.split("[")[0].split(".")[1] for p in diff_paths(before, after)})}
         # -- safety net: everything that changed must be a modelled field
         um = unmodelled_changes(before, after)
         if um:
@@ -755,13 +756,6 @@ def cq_args_case(rec: Dict[str, Any]) -> str:
     return f"({cq_universe(case)}, {cq_world(rec['w0'])}, {cq_list(cq_cobs(case, c) for c in rec['calls'])})"
 
 
-def looks_fixed(rec: Dict[str, Any]) -> bool:
-    """observed = spec: no accumulation in the shared filter / links objects and every outcome equals the fresh one"""
-    w0 = rec["w0"]
-    return bool(rec["calls"]) and all(c["world"]["links"] == w0["links"] and c["world"]["coll"] == w0["coll"] and c["same"]
-                                      and c["same_run"] for c in rec["calls"]) and not rec["kf"]
-
-
 def part_b(rep: vlib.Reporter, tier: str, rng: random.Random) -> bool:
     n = 1000 if tier == "thorough" else 70
     recs = []
@@ -789,6 +783,10 @@ def part_b(rep: vlib.Reporter, tier: str, rng: random.Random) -> bool:
             dist["in_kf_links"] += int(c["links_grown"])
             dist["with_filter"] += int(c["call"]["filter"])
             dist["with_links"] += int(c["call"]["links"])
+            dist["objects_mutated_calls"] += int(bool(c["mutated"]))
+            for m in c["mutated"]:
+                dist.setdefault("mutated_objects", {})
+                dist["mutated_objects"][m] = dist["mutated_objects"].get(m, 0) + 1
         if any(c["stale"] or c["links_grown"] for c in rec["calls"]) or any(not c["call"]["copy"] for c in rec["calls"]):
             rep.nontrivial(("B", case))
         for p in rec["problems"]:
@@ -800,12 +798,8 @@ def part_b(rep: vlib.Reporter, tier: str, rng: random.Random) -> bool:
     terms = [cq_args_case(r) for r in recs]
     bad, info = vlib.run_cases("C07", "args", REQ_B, "chk_args", terms, case_type="universe * world * list cobs", shard=60)
     bad_kf, info_kf = vlib.run_cases("C07", "kf", REQ_B, "chk_kf", terms, case_type="universe * world * list cobs", shard=60)
-    fixed_like = 0
     for i in bad[:6]:
         r = recs[i]
-        if looks_fixed(r):
-            fixed_like += 1
-            continue
         found = True
         rep.finding("args-model:" + json.dumps(r["case"], sort_keys=True)[:200],
                     "observed effect of prepare/run_all on the caller's objects (or its planning outcome) is not the model's "
@@ -818,7 +812,7 @@ def part_b(rep: vlib.Reporter, tier: str, rng: random.Random) -> bool:
                     "a call outside the model's known-defect domains (kf_filter, kf_links) behaves differently with shared and "
                     "with fresh objects", {"kind": "args", "case": r["case"]})
     rep.add("argument_sequences", dist)
-    rep.add("args_model", {**info, "disagreements": len(bad), "accepted_as_fixed": fixed_like})
+    rep.add("args_model", {**info, "disagreements": len(bad)})
     rep.add("args_kf_model", {**info_kf, "disagreements": len(bad_kf)})
     if recs:
         r0 = next((r for r in recs if r["kf"]), recs[0])
